@@ -2,7 +2,7 @@
    computes the source range of an identifier for a diagnostic), with checked
    accesses and fuel.  [guarded] says whether the scan loop tests the end of
    the text ("for i < n"): the pinned snapshot did not (finding
-   C16-css-identifier-range-hang: at the end of the text
+   C16-css-identifier-range-hang, repaired by fix commit e50bb17: at the end of the text
    utf8.DecodeRuneInString returns (RuneError, 0), IsNameContinue(RuneError)
    is true, and the loop never advanced). *)
 From V Require Import Common.Base C16.Checked C16.Wtf8.
@@ -74,3 +74,7 @@ End ROI.
 
 Definition RangeOfIdentifier (guarded : bool) (text : list Z) : res Z :=
   RangeOfIdentifier_fuel guarded text (S (length text)).
+
+(* which of the two loops the CURRENT source has: fix commit e50bb17 added the test ("for i < n") *)
+Definition current_loop_tests_end_of_text : bool := true.
+Definition RangeOfIdentifier_current : list Z -> res Z := RangeOfIdentifier current_loop_tests_end_of_text.
